@@ -289,4 +289,40 @@ example : ∀ t ∈ exTriples, castLoopVal .int t.1 = .ok t.2.1 ∧ t.2.2.pars =
   simp only [exTriples, List.mem_cons, List.mem_nil_iff, or_false] at ht
   rcases ht with rfl | rfl | rfl <;> exact ⟨rfl, rfl, fun _ => rfl⟩
 
+/-- **A range lists integers.** Whatever its bounds, a non-empty range is refused by a `str` loop (at its first
+value), and by a `bool` loop as soon as it reaches a value other than 0 and 1: the loop type is checked for
+ranges exactly as for written lists. -/
+theorem C06_range_in_str_loop_refused (o : SetOrder Int) (incs : Includes K) (st : LState K) (x : String)
+    (a b : String) (c : Option String) (body : List Stmt) (v : Val K) (vs : List (Val K))
+    (h : loopVals st.tables (.range a b c) = .ok (v :: vs)) :
+    ∃ T, execLoop o incs st .str x (.range a b c) body = .error (.value, T) := by
+  have hv : ∃ n : Nat, v = .atom (.num (.int (Int.ofNat n))) := by
+    have key : ∀ l : List Nat, (l.map fun (n : Nat) => (Val.atom (.num (.int (Int.ofNat n))) : Val K)) = v :: vs →
+        ∃ n : Nat, v = .atom (.num (.int (Int.ofNat n))) := by
+      intro l hl
+      cases l with
+      | nil => cases hl
+      | cons n ns => simp only [List.map_cons, List.cons.injEq] at hl; exact ⟨n, hl.1.symm⟩
+    cases c with
+    | none =>
+      simp only [loopVals, Nat.succ_ne_zero, if_false, Except.ok.injEq] at h
+      exact key _ h
+    | some c =>
+      simp only [loopVals] at h
+      by_cases hz : digitsToNat c = 0
+      · simp [hz] at h
+      · simp only [hz, if_false, Except.ok.injEq] at h
+        exact key _ h
+  obtain ⟨n, rfl⟩ := hv
+  unfold execLoop
+  simp only [LoopHeader.pars, List.map_nil, List.append_nil, h, liftE, bind, Except.bind]
+  rw [C06_wrong_type_refused o incs .str x body _ vs _ .value rfl]
+  exact ⟨_, rfl⟩
+
+theorem C06_bool_loop_value_beyond_one_refused (o : SetOrder Int) (incs : Includes K) (x : String)
+    (body : List Stmt) (i : Int) (hi : i ≠ 0 ∧ i ≠ 1) (rest : List (Val K)) (st : LState K) :
+    execLoopVals o incs .bool x body (.atom (.num (.int i)) :: rest) st = .error (.value, st.tables) := by
+  apply C06_wrong_type_refused
+  simp [castLoopVal, hi.1, hi.2]
+
 end Blackbird
